@@ -459,7 +459,12 @@ func (vc *VC) objectLocs(p Val, t types.Type) []location {
 		return out
 	}
 	skey := typeKey(t)
+	external := !strings.HasPrefix(skey, modulePath)
 	for i := 0; i < s.NumFields(); i++ {
+		if external && !s.Field(i).Exported() {
+			// unexported fields of library types are never read by repository code
+			continue
+		}
 		fa := vc.fieldAddr(p, s, skey, i)
 		ft := s.Field(i).Type()
 		if kindOf(ft) == KArray {
@@ -670,6 +675,11 @@ func (f *Frame) havocReachable(a Val, st *State) {
 			}
 		}
 	case KIface:
+		if bv, ok := vc.boxed[a.T.S]; ok {
+			// a slice (or other composite) boxed into an interface
+			f.havocReachable(bv, st)
+			return
+		}
 		if n, ok := litValue(a.Tag); ok {
 			if t, ok := vc.tagTypes[int(n)]; ok {
 				if pt, ok := t.Underlying().(*types.Pointer); ok {
